@@ -87,6 +87,7 @@ def check(chk, fx):
                  goldenreg.GROUPS["DIAG"])
     from .. import primrules
     primrules.prims(chk, fx, "NAMEFILL")
+    primrules.prims(chk, fx, "UTIL")          # symbols of the listing are resolved by exact string comparison
     enums = c05._enum_values(fx)
     c05.conf(chk, fx, enums)
     lr.all_table_rules(chk, fx)
